@@ -346,13 +346,14 @@ def make_spec(stream, rng, edge_index=None):
             # a fractional (binary-exact) data rate just above / at / below the hot tier's maximum ingest rate:
             # the parser rounds it to a whole number, and a rate above the maximum is refused with an error
             spec["hot"]["rate"] = max(1, max(o["rate"] for o in obs))
-            if rng.random() < 0.5:
+            variant = ((edge_index // len(kinds)) % 3) if edge_index is not None else rng.randrange(3)
+            if variant == 0:
                 obs[-1]["rate"] = spec["hot"]["rate"] + rng.choice([0.75, 0.25, -0.25, 0.5])
             else:
-                # ... or the LIMIT is fractional and a whole-number rate lies just above / below it
+                # ... or the LIMIT is fractional and a whole-number rate lies just above (1) / below (2) it
                 k = spec["hot"]["rate"]
-                spec["hot"]["rate"] = k + rng.choice([0.75, 0.5, 0.25])
-                obs[-1]["rate"] = k + rng.choice([1, 1, 0])
+                spec["hot"]["rate"] = k + (0.75 if variant == 1 else rng.choice([0.75, 0.5, 0.25]))
+                obs[-1]["rate"] = k + (1 if variant == 1 else 0)
         elif which == "handover" and len(obs) >= 2:
             # x starts in exactly the step y finishes, fills the telescope, and is listed first
             y, x = obs[0], obs[1]
